@@ -227,8 +227,8 @@ def run_tpcn(case):
     ms = ModeStatistics(means, covs, dofs)
     for assign in range(K):
         cc = dict(case, assign=assign)
-        if case.get("assign") is not None and case["assign"] != assign:
-            continue
+        # NB: the SAME ModeStatistics object serves both clusters in turn (second use with other labels of equal length);
+        # a replay therefore re-executes the whole sequence, never a single cluster in isolation
         r = _runner("tpcn", G, ms, assign, 0.7)
         r.sigmas[:] = sigma
         model = []
@@ -308,7 +308,7 @@ def run_accept(case):
     z = 0.35
     deltas = [(-np.inf, 0.0), (-30.0, 0.0), (-1.0, 0.0), (0.0, 0.0), (1.0, 0.0), (30.0, 0.0), (-np.inf, -np.inf), (0.0, -np.inf)]  # (logL', logL)
     for (l1, l0) in deltas:
-        for beta in (0.1, 0.5, 1.0):
+        for beta in (1e-3, 0.1, 0.5, 1.0):
             for mode in ("alpha", "below", "above"):
                 rec = {}
 
@@ -345,7 +345,7 @@ def run_accept(case):
                 alpha = float(out[5])
                 moved = not np.array_equal(out[0], u0)
                 res.outcome((kern, repr(l1), repr(l0), beta, mode, moved), nontrivial=moved)
-                if abs(alpha - ap) > 1e-9:
+                if (ap == 0.0 and alpha != 0.0) or abs(alpha - ap) > 1e-9:  # a move to zero likelihood / outside the cube must have probability exactly 0
                     res.violate(f"accept:alpha:{kern}", f"{kern}: logL {l0}->{l1}, beta={beta}: returned acceptance {alpha!r}, expected min(1, exp(beta*dlogL + r)) = {ap!r}", cc)
                     continue
                 if mode == "below" and 0 < ap and not moved:
